@@ -30,7 +30,7 @@ type largeEnc struct {
 	header   int // bytes in front of the first element
 }
 
-func largeEncodings(rng *vh.Rng, thorough bool) []largeEnc {
+func largeEncodings(_ *vh.Rng, thorough bool) []largeEnc {
 	counts := []int{4097, 6000, 40000}
 	if thorough {
 		counts = append(counts, 70000)
@@ -99,6 +99,39 @@ func largeEncodings(rng *vh.Rng, thorough bool) []largeEnc {
 	return out
 }
 
+// largeCut judges one truncation point of one large encoding
+func largeCut(rep *vh.Report, mu *sync.Mutex, le largeEnc, cut int) {
+	var avail int32
+	o := vh.Guard(func() { avail, _ = decodeFull(le.kind, le.b[:cut]) })
+	mu.Lock()
+	defer mu.Unlock()
+	rep.Case(fmt.Sprintf("large:%s:%d@%d", le.typ, le.count, cut), true)
+	rep.Count("large-prefix:" + o.String())
+	if o.OK() && cut < len(le.b) {
+		key := "prefix-decodes:" + le.typ
+		if avail < 0 {
+			key = "ReadBytes:short-read-accepted"
+		}
+		// the replay carries the generator's parameters, not the (large) bytes
+		rep.Fail("property", key,
+			fmt.Sprintf("%s with %d elements (%d bytes): the %d-byte strict prefix decodes to an object — elements beyond an internal cap are not read", le.typ, le.count, len(le.b), cut),
+			replayCase{Mode: "large", Kind: le.kind, Typ: le.typ, N: cut, What: fmt.Sprintf("%d:%d", le.count, len(le.b))})
+	}
+}
+
+func replayLarge(env *vh.Env, rep *vh.Report, c replayCase) {
+	var count, size int
+	fmt.Sscanf(c.What, "%d:%d", &count, &size)
+	var mu sync.Mutex
+	for _, le := range largeEncodings(vh.NewRng(env.Seed), true) {
+		if le.kind == c.Kind && le.typ == c.Typ && le.count == count && len(le.b) == size && c.N < size {
+			largeCut(rep, &mu, le, c.N)
+			return
+		}
+	}
+	rep.Note("replay: no large encoding " + c.Typ + " " + c.What)
+}
+
 func largeSweep(env *vh.Env, rep *vh.Report, rng *vh.Rng) {
 	encs := largeEncodings(rng, env.Thorough)
 	var mu sync.Mutex
@@ -147,22 +180,7 @@ func largeSweep(env *vh.Env, rep *vh.Report, rng *vh.Rng) {
 				if overBudget() {
 					return
 				}
-				var avail int32
-				o := vh.Guard(func() { avail, _ = decodeFull(le.kind, le.b[:cut]) })
-				mu.Lock()
-				rep.Case(fmt.Sprintf("large:%s:%d@%d", le.typ, le.count, cut), true)
-				rep.Count("large-prefix:" + o.String())
-				if o.OK() {
-					key := "prefix-decodes:" + le.typ
-					if avail < 0 {
-						key = "ReadBytes:short-read-accepted"
-					}
-					// the replay carries the generator's parameters, not the (large) bytes
-					rep.Fail("property", key,
-						fmt.Sprintf("%s with %d elements (%d bytes): the %d-byte strict prefix decodes to an object — elements beyond an internal cap are not read", le.typ, le.count, len(le.b), cut),
-						replayCase{Mode: "large", Kind: le.kind, Typ: le.typ, N: cut, What: fmt.Sprintf("%d", le.count)})
-				}
-				mu.Unlock()
+				largeCut(rep, &mu, le, cut)
 			}
 		}(le, cuts)
 	}
@@ -207,47 +225,58 @@ func blobCarriers(rng *vh.Rng) []enc {
 	return out
 }
 
+// the blob carriers are the same in every run (a replay names one by its index)
+func fixedCarriers() []enc { return blobCarriers(vh.NewRng(0xC04A11A5)) }
+
+func sortedStrings(obj interface{}) [][]byte {
+	out := stringsOf(obj)
+	sort.Slice(out, func(i, j int) bool { return bytes.Compare(out[i], out[j]) < 0 })
+	return out
+}
+
+func aliasOne(rep *vh.Report, e enc, rc replayCase) {
+	buf := append([]byte{}, e.b...) // the caller's receive buffer
+	var obj interface{}
+	if !vh.Guard(func() { obj = decodeIn(e.kind, gio.NewDataInputX(buf), buf) }).OK() {
+		return
+	}
+	before := sortedStrings(obj)
+	for i := range buf { // the buffer is refilled with the next message
+		buf[i] ^= 0xA5
+	}
+	after := sortedStrings(obj)
+	rep.Case("alias:"+e.typ+":"+hash8(e.b), true)
+	rep.Count("alias:checked")
+	bad, n := len(before) != len(after), 0
+	for i := 0; !bad && i < len(before); i++ {
+		if !bytes.Equal(before[i], after[i]) {
+			bad, n = true, len(before[i])
+		}
+	}
+	if bad {
+		rep.Fail("property", "decoded-data-aliases-the-input-buffer:"+e.typ,
+			fmt.Sprintf("%s: after the %d-byte input buffer was overwritten, a %d-byte string/blob of the object decoded from it changed: the decoded object holds a view of the caller's buffer, not a copy", e.typ, len(e.b), n), rc)
+	}
+}
+
 func aliasSweep(env *vh.Env, rep *vh.Report, rng *vh.Rng, encs []enc) {
-	all := append(blobCarriers(rng), encs...)
-	for _, e := range all {
+	for i, e := range fixedCarriers() {
+		aliasOne(rep, e, replayCase{Mode: "alias", Kind: e.kind, Typ: e.typ, N: i, What: "carrier"})
+	}
+	for _, e := range encs {
 		if !streamable(e.kind) || overBudget() {
 			continue
 		}
-		buf := append([]byte{}, e.b...) // the caller's receive buffer
-		var obj interface{}
-		if !vh.Guard(func() { obj = decodeIn(e.kind, gio.NewDataInputX(buf), buf) }).OK() {
-			continue
-		}
-		before := stringsOf(obj)
-		for i := range buf { // the buffer is refilled with the next message
-			buf[i] = 0xA5
-		}
-		after := stringsOf(obj)
-		rep.Case("alias:"+e.typ+":"+hash8(e.b), true)
-		rep.Count("alias:checked")
-		bad := -1
-		if len(before) != len(after) {
-			bad = 0
-		} else {
-			for i := range before {
-				if !bytes.Equal(before[i], after[i]) {
-					bad = i
-					break
-				}
-			}
-		}
-		if bad >= 0 {
-			n := 0
-			if bad < len(before) {
-				n = len(before[bad])
-			}
-			rc := replayCase{Mode: "alias", Kind: e.kind, Typ: e.typ, Hex: vh.Hex(e.b)}
-			if len(e.b) > 4096 {
-				rc.Hex = vh.Hex(e.b[:64])
-				rc.What = fmt.Sprintf("first 64 of %d bytes; blob of %d bytes", len(e.b), n)
-			}
-			rep.Fail("property", "decoded-data-aliases-the-input-buffer:"+e.typ,
-				fmt.Sprintf("%s: after the %d-byte input buffer was overwritten, a %d-byte string/blob of the object decoded from it changed: the decoded object holds a view of the caller's buffer, not a copy", e.typ, len(e.b), n), rc)
-		}
+		aliasOne(rep, e, replayCase{Mode: "alias", Kind: e.kind, Typ: e.typ, Hex: vh.Hex(e.b)})
 	}
+}
+
+func replayAlias(rep *vh.Report, c replayCase) {
+	if c.What == "carrier" {
+		if cs := fixedCarriers(); c.N < len(cs) {
+			aliasOne(rep, cs[c.N], c)
+		}
+		return
+	}
+	aliasOne(rep, enc{c.Kind, c.Typ, vh.UnHex(c.Hex)}, c)
 }
